@@ -1,7 +1,7 @@
 (* T25: the protocol methods of Circuit whose text is the text of the generic algorithms of Model/FuncProto.v
    (g_is_constant(_at), g_is_symmetric(_at), g_is_dependent, g_equal_to_input, g_significant, g_find_negations),
    as regenerated from cirbo/core/circuit/circuit.py, equal those algorithms run on circ_rep c.
-   Side condition: bool_valued c (Proofs/CircuitProtoGenLib.v).  The fuel parameters are instantiated with the
+   Side condition: fuel_ok c (Proofs/CircuitProtoGenLib.v).  The fuel parameters are instantiated with the
    fuel of the hand model (outputs_fuel for evaluate, at_fuel for evaluate_at). *)
 Require Import Cirbo.Model.Base Cirbo.Model.Gate Cirbo.Model.Circuit Cirbo.Model.Eval Cirbo.Model.FuncProto.
 Require Import Cirbo.Generated.CircuitCore Cirbo.Generated.CircuitAlgos.
@@ -12,7 +12,7 @@ Require Import Cirbo.Generated.CircuitProtoGen Cirbo.Proofs.CircuitProtoGenLib.
 
 Section Generic.
   Variable c : circuit.
-  Hypothesis Hb : bool_valued c.
+  Hypothesis Hb : fuel_ok c.
 
   Ltac sizes := rewrite ?gen_input_size_eq; change (r_n (circ_rep c)) with (length (inputs c)).
 
